@@ -23,6 +23,7 @@ UCL_LINES = [
 ]
 KROME_A = ["@format:idx,R,R,P,Tmin,Tmax,rate", "@common:user_crate", "@var:kk = 1.0d-3*Tgas", "1,H,H,H2,NONE,NONE,kk*user_crate", "2,H2,E,H,NONE,NONE,2.0d-9"]
 KROME_B = ["@format:idx,R,R,P,Tmin,Tmax,rate", "1,C,H,CH,10,1d4,1.0d-10*(Tgas/3d2)**(0.5)"]
+KROME_E = KROME_B + ["2,CH,E,C,10,1d4,3.0d-10", "3,H,E,H,NONE,NONE,2.0d-9"]
 
 SPECS = {
     "minimal-modifiers": dict(files={"net.kida": KIDA_LINES}, formats=["kida"], elements=["H", "C"], pseudo=[],
@@ -133,7 +134,7 @@ def child_history(workdir, spec):
             elif pre == "binding-energies":
                 from naunet.chemistrydata import update_binding_energy
                 update_binding_energy({"#CO": 777.0})
-            elif pre == "edit-after-render":
+            elif pre in ("edit-after-render", "patch-first"):
                 pass        # handled below: the target network itself is rendered, edited and rendered again
             elif pre == "failed-krome":
                 p = os.path.join(d, "bad.krome")
@@ -159,6 +160,16 @@ def child_history(workdir, spec):
                     grain_model=spec.get("grain_model", ""), **kw)
         solver, device, method = spec["solver"]
         from naunet.templateloader import TemplateLoader
+        if "patch-first" in spec.get("prelude", []):
+            # a simulation-code patch rendered from the same network object first must leave no trace in the sources rendered afterwards
+            scratch = tempfile.mkdtemp(prefix="vf_patch_first_")
+            try:
+                from naunet.patches import patch_factory
+                quiet(patch_factory("enzo", device).render, n, path=Path(scratch))
+            except Exception:
+                pass
+            finally:
+                shutil.rmtree(scratch, ignore_errors=True)
         if edit:
             # the same description reached through an edit of the network object after it was rendered once
             scratch = tempfile.mkdtemp(prefix="vf_pre_render_")
@@ -294,6 +305,36 @@ def oracle_c20(tier, seed, only=None, prop="C20"):
                                      "signature": f"{prop}:several-project-files:{f_}"})
         except Exception as e:
             viol.append({"property": prop, "case": "several-project-files", "what": f"raises: {type(e).__name__}: {e}", "signature": f"{prop}:several-project-files:raises"})
+        # export of a partly indexed network: the index a rate-modifier key refers to still names the same reaction in the exported project
+        tmpx = tempfile.mkdtemp(prefix="vf_c20x_")
+        try:
+            from naunet.network import Network
+            from naunet.reactions.reaction import Reaction
+            from naunet.reactiontype import ReactionType as RT
+            from naunet.species import Species
+            Species.reset()
+            rs = [Reaction(["C", "H"], ["CH"], alpha=1.0, reaction_type=RT.GAS_TWOBODY, idxfromfile=1), Reaction(["CH", "H"], ["C", "H2"], alpha=2.0, reaction_type=RT.GAS_TWOBODY, idxfromfile=2),
+                  Reaction(["H2", "C"], ["CH", "H"], alpha=3.0, reaction_type=RT.GAS_TWOBODY, idxfromfile=3), Reaction(["CH", "C"], ["C2", "H"], alpha=4.0, reaction_type=RT.GAS_TWOBODY)]
+            net = Network(rs, rate_modifier={2: "9.5"})
+            target = f"{rs[1]:minimal}"
+            try:
+                quiet(net.export, "proj", prefix=tmpx, overwrite=True)
+            except Exception:
+                pass        # rendering of the test programs may fail offline; the files checked below are written before that
+            rf, cf = os.path.join(tmpx, "proj", "reactions.naunet"), os.path.join(tmpx, "proj", "naunet_config.toml")
+            if os.path.exists(rf) and os.path.exists(cf):
+                cases += 1
+                Species.reset()
+                back = Network(filelist=rf, fileformats="naunet")
+                keys = [int(k) for k in tomlkit.loads(open(cf).read())["chemistry"]["rate_modifier"]]
+                hit = [f"{r:minimal}" for r in back.reaction_list if r.idxfromfile in keys]
+                if keys != [2] or hit != [target]:
+                    viol.append({"property": prop, "case": "export-partly-indexed", "what": f"export-modifier-target: the project file keys the modifier by {keys}; in the exported reactions.naunet that index belongs to {hit}, in the network it was {target}",
+                                 "signature": f"{prop}:export-partly-indexed:export-modifier-target"})
+        except Exception as e:
+            viol.append({"property": prop, "case": "export-partly-indexed", "what": f"raises: {type(e).__name__}: {e}", "signature": f"{prop}:export-partly-indexed:raises"})
+        finally:
+            shutil.rmtree(tmpx, ignore_errors=True)
         c2, v2 = oracle_examples(tier, seed)
         cases += c2
         viol.extend(v2)
@@ -315,6 +356,9 @@ def _leeds_grain_lines():
     return [enc_leeds(AR(r, p, 1.0e-9 * (k + 1), 0.0, 0.0, 10, 1000, k + 1, code)) for k, (r, p, code) in enumerate(rs)]
 
 
+# a network with the electron (the species whose alias a simulation-code patch spells differently)
+C17_SPECS["krome-electron"] = dict(files={"net.krome": KROME_E}, formats=["krome"], elements=None, pseudo=None, solver=("cvode", "cpu", "dense"),
+                                   skip_preludes=("custom-elements",))
 # several grain species in one group: the grain density is a sum over them, whose order must not follow set iteration
 C17_SPECS["leeds-grains"] = dict(files={"net.leeds": _leeds_grain_lines()}, formats=["leeds"], elements=None, pseudo=None, grain_model="hh93",
                                  solver=("cvode", "cpu", "sparse"), skip_preludes=("custom-elements",))
@@ -324,7 +368,7 @@ C17_SPECS["uclchem"]["files"] = {"net.ucl": [l.replace("HCL", "HCl").replace(",C
 def oracle_c17(tier, seed):
     viol, cases = [], 0
     seeds = ["0", "1", "7"] if tier == "quick" else ["0", "1", "2", "3", "7", "11", "42", "1234"]
-    preludes = [[], ["custom-elements"], ["krome-directives"], ["binding-energies"], ["failed-krome", "krome-directives"], ["failed-krome"], ["edit-after-render"]]
+    preludes = [[], ["custom-elements"], ["krome-directives"], ["binding-energies"], ["failed-krome", "krome-directives"], ["failed-krome"], ["edit-after-render"], ["patch-first"]]
     for label, base in C17_SPECS.items():
         ref = None
         for hs in seeds:
@@ -357,7 +401,7 @@ def oracle_c17(tier, seed):
                 finally:
                     shutil.rmtree(tmp, ignore_errors=True)
     return {"cases": cases, "distinct": cases, "violations": viol, "samples": [{"seeds": seeds, "preludes": preludes}],
-            "bound": f"{len(C17_SPECS)} networks x {len(seeds)} hash seeds, plus 6 preludes (the network itself rendered once and then edited through a setter; other network with custom element lists/prefixes, KROME directives, user binding energies, a KROME file that fails half-way) and repeated rendering",
+            "bound": f"{len(C17_SPECS)} networks x {len(seeds)} hash seeds, plus 7 preludes (an Enzo patch rendered from the network first; the network itself rendered once and then edited through a setter; other network with custom element lists/prefixes, KROME directives, user binding energies, a KROME file that fails half-way) and repeated rendering",
             "rule": "each (network, seed, prelude) rendering in a fresh interpreter is one case; sha256 of include/ src/ python/"}
 
 
